@@ -169,18 +169,25 @@ func (c *compiler) evalAssignExpression(node *ast.AssignExpression) (interface{}
 }
 
 func (c *compiler) evalUserFunction(node *userFunction, args []ast.Expression) (interface{}, error) {
+	// the arguments belong to the caller: evaluate all of them before the
+	// first parameter is bound, or an argument named like an earlier
+	// parameter would see that parameter instead of the caller's variable
+	vals := make([]interface{}, len(node.Parameters))
+	for i := range node.Parameters {
+		v, err := c.evalExpression(args[i])
+		if err != nil {
+			return nil, err
+		}
+
+		vals[i] = v
+	}
+
 	octx := c.ctx
 	defer func() { c.ctx = octx }()
 
 	c.ctx = c.ctx.New()
 	for i, p := range node.Parameters {
-		a := args[i]
-		v, err := c.evalExpression(a)
-		if err != nil {
-			return nil, err
-		}
-
-		c.ctx.Set(p.Value, v)
+		c.ctx.Set(p.Value, vals[i])
 	}
 
 	return c.evalBlockStatement(node.Block)
